@@ -154,6 +154,22 @@ fn stun_build(msg_type: u16, tx: &[u8; 12], attrs: &[(u16, Vec<u8>)], mi: &MiMod
     b
 }
 
+/// An authenticated request with a USE-CANDIDATE attribute appended AFTER its MESSAGE-INTEGRITY (and a fresh, valid
+/// FINGERPRINT): what any party on the path can make out of a genuine check without knowing the password.
+fn tamper_append_uc(orig: &[u8]) -> Option<Vec<u8>> {
+    let v = stun_parse(orig)?;
+    let (mi_off, _) = v.mi?;
+    let mut b = orig[..mi_off + 24].to_vec();
+    put_attr(&mut b, AT_USE_CANDIDATE, &[]);
+    let l = b.len() - 20 + 8;
+    set_len(&mut b, l);
+    let c = crc32(&b) ^ 0x5354_554e;
+    put_attr(&mut b, AT_FINGERPRINT, &c.to_be_bytes());
+    let l = b.len() - 20;
+    set_len(&mut b, l);
+    Some(b)
+}
+
 fn xor_addr_v4(a: SocketAddr) -> Vec<u8> {
     let mut v = vec![0u8, 1];
     v.extend_from_slice(&(a.port() ^ 0x2112).to_be_bytes());
@@ -174,7 +190,10 @@ struct StunView {
     username: Option<Vec<u8>>,
     /// offset of the first MESSAGE-INTEGRITY attribute header and its 20-byte value
     mi: Option<(usize, [u8; 20])>,
+    /// USE-CANDIDATE inside the integrity-protected part (before MESSAGE-INTEGRITY)
     use_candidate: bool,
+    /// USE-CANDIDATE after MESSAGE-INTEGRITY: anybody on the path can have appended it
+    uc_unprotected: bool,
 }
 impl StunView {
     fn is_request(&self) -> bool {
@@ -217,7 +236,13 @@ fn stun_parse(d: &[u8]) -> Option<StunView> {
             }
             // RFC 5389 15.4: attributes after MESSAGE-INTEGRITY (other than FINGERPRINT) are ignored by a
             // verifying agent; a USE-CANDIDATE there is not covered by the integrity check
-            AT_USE_CANDIDATE => v.use_candidate = true,
+            AT_USE_CANDIDATE => {
+                if v.mi.is_none() {
+                    v.use_candidate = true
+                } else {
+                    v.uc_unprotected = true
+                }
+            }
             _ => {}
         }
         off += 4 + len;
@@ -269,6 +294,9 @@ struct Ledger {
     /// kind of the most recently delivered *judged* datagram: Some(true) unauthenticated request,
     /// Some(false) response with no outstanding transaction (used to name the oracle of a broken invariant)
     last_judged_is_req: Option<bool>,
+    /// the most recent authenticated request without USE-CANDIDATE delivered to A (source, bytes)
+    last_plain_auth_req: Option<(SocketAddr, Vec<u8>)>,
+    tampered_uc_delivered: u64,
     auth_req_delivered: u64,
     unmatched_resp_delivered: u64,
     deliveries_to_a: u64,
@@ -319,6 +347,9 @@ impl Monitor for IceMon {
             }
             .into(),
         );
+        if v.is_request() && v.use_candidate {
+            toks.push("STUN:uc".into());
+        }
         let mut l = self.0.lock().unwrap();
         if sh.cur_injected {
             l.inflight.push((from, to, d.to_vec()));
@@ -352,6 +383,13 @@ impl Monitor for IceMon {
             if l.authenticated(d, &v) {
                 l.auth_req_delivered += 1;
                 l.auth_src.insert(from);
+                if !v.use_candidate && !v.uc_unprotected {
+                    l.last_plain_auth_req = Some((from, d.to_vec()));
+                }
+                if v.uc_unprotected && !v.use_candidate {
+                    l.tampered_uc_delivered += 1;
+                    l.last_judged_is_req = Some(true);
+                }
                 if v.use_candidate {
                     l.auth_uc = true;
                 }
@@ -635,6 +673,21 @@ pub fn generate(prop: &str, seed: u64, idx: u64, tier: Tier) -> Plan {
         }
         p.heal_at_ms = end;
     }
+    // on-path tampering with B's genuine checks: every genuine nomination (request with USE-CANDIDATE) of B is lost,
+    // and the attacker re-sends B's plain checks with USE-CANDIDATE appended behind MESSAGE-INTEGRITY; a controlled A
+    // must not consider anything nominated
+    if r.chance(12) {
+        p.knobs.insert("role".into(), 1);
+        for ord in 0..80 {
+            p.faults.push(Rule { from: "B".into(), class: "STUN:uc".into(), ordinal: ord, action: Action::Drop });
+        }
+        let first = b_start.max(a_start) + r.range(20, 400);
+        for k in 0..r.range(1, 4) {
+            p.ops.push(Op::new(first + k * r.range(5, 300), "tamper", &[]));
+        }
+        p.ops.sort_by_key(|o| o.at_ms);
+        p.heal_at_ms = end;
+    }
     p
 }
 
@@ -794,7 +847,7 @@ pub async fn run(ctx: &Ctx) {
     let mut items: Vec<(u64, u8, Item)> = vec![(a_start, 0, Item::AStart), (b_start, 1, Item::BStart)];
     if attacker {
         for (i, o) in p.ops.iter().enumerate() {
-            if o.kind == "req" || o.kind == "resp" {
+            if o.kind == "req" || o.kind == "resp" || o.kind == "tamper" {
                 items.push((o.at_ms.min(end_ms), 2, Item::Attack(i)));
             } else {
                 ctx.violate("HARNESS.c06-op", format!("unknown op kind {}", o.kind));
@@ -864,7 +917,21 @@ pub async fn run(ctx: &Ctx) {
                 };
                 let mut tx = [0u8; 12];
                 arng.fill(&mut tx);
-                let (bytes, from, sem, judged, is_req): (Vec<u8>, SocketAddr, String, bool, bool) = if op.kind == "req" {
+                let (bytes, from, sem, judged, is_req): (Vec<u8>, SocketAddr, String, bool, bool) = if op.kind == "tamper" {
+                    // the on-path party re-sends B's latest genuine check with USE-CANDIDATE appended behind its integrity
+                    // attribute; judged by invariant I4 (nomination needs a USE-CANDIDATE inside the protected part)
+                    let last = led.lock().unwrap().last_plain_auth_req.clone();
+                    match last.and_then(|(src, d)| tamper_append_uc(&d).map(|t| (src, t))) {
+                        Some((src, t)) => {
+                            ctx.stat("probe.tamper_sent", 1);
+                            (t, src, "req genuine+USE-CANDIDATE appended after MESSAGE-INTEGRITY".to_string(), false, true)
+                        }
+                        None => {
+                            ctx.stat("probe.tamper_no_genuine_request_yet", 1);
+                            continue;
+                        }
+                    }
+                } else if op.kind == "req" {
                     let (user, mi, uc, fp, ctl, prio, src) = (op.arg(0).rem_euclid(4), op.arg(1).rem_euclid(8), op.arg(2) != 0, op.arg(3).rem_euclid(3), op.arg(4).rem_euclid(3), op.arg(5).rem_euclid(3), op.arg(6));
                     let mut attrs: Vec<(u16, Vec<u8>)> = Vec::new();
                     match user {
